@@ -80,11 +80,12 @@ Definition same_arrays (c c' : cache P) : Prop :=
 
 Lemma coherent_same_arrays dec jac c c' :
   coherent dec jac c -> coherent dec jac c' -> same_compact c c' ->
-  dec (params c) = dec (params c') -> jac (params c) = jac (params c') ->
+  (forall x y z, dec (params c) x y z = dec (params c') x y z) ->
+  (forall x y z, jac (params c) x y z = jac (params c') x y z) ->
   same_arrays c c'.
 Proof.
   intros (A1 & A2 & A3 & A4 & A5 & A6) (B1 & B2 & B3 & B4 & B5 & B6) (C1 & C2 & C3) Hd Hj.
-  unfold same_arrays. rewrite A1, A2, A3, A4, A5, A6, B1, B2, B3, B4, B5, B6, C1, C2, C3, Hd, Hj.
-  repeat split.
+  unfold same_arrays. rewrite A1, A2, A3, A4, A5, A6, B1, B2, B3, B4, B5, B6, C1, C2, C3.
+  repeat split; apply map_ext; intro t; unfold comp1, comp2, comp3; rewrite ?Hd, ?Hj; reflexivity.
 Qed.
 End Cache.
